@@ -47,6 +47,24 @@ def keyToJson : Key → Json
   | .str s => Json.mkObj [("s", .str s)]
   | .tuple xs => Json.mkObj [("T", Json.arr (xs.map atomToJson).toArray)]
 
+/-- floats on the wire: `[m, e]` for the finite dyadic `m / 2^e`, `"-0"`, `"nan"`, `"inf"`, `"-inf"` -/
+def fltOfJson (v : Json) : Except String Flt :=
+  match v with
+  | .str "nan" => pure .nan
+  | .str "inf" => pure (.inf false)
+  | .str "-inf" => pure (.inf true)
+  | .str "-0" => pure .negZero
+  | _ => do
+    let a ← v.getArr?
+    if h : a.size = 2 then do let m ← a[0].getInt?; let e ← a[1].getNat?; pure (.fin m e) else throw "bad f"
+
+def fltToJson : Flt → Json
+  | .fin m e => Json.arr #[Json.num (JsonNumber.fromInt m), Json.num (JsonNumber.fromNat e)]
+  | .negZero => .str "-0"
+  | .nan => .str "nan"
+  | .inf false => .str "inf"
+  | .inf true => .str "-inf"
+
 partial def pvOfJson (j : Json) : Except String PV :=
   let kvs (v : Json) : Except String (List (Key × PV)) := do
     let a ← v.getArr?
@@ -60,9 +78,7 @@ partial def pvOfJson (j : Json) : Except String PV :=
   | .bool b => pure (.bool b)
   | .obj _ =>
     if let .ok v := j.getObjVal? "i" then do let n ← v.getInt?; pure (.int n)
-    else if let .ok v := j.getObjVal? "f" then do
-      let a ← v.getArr?
-      if h : a.size = 2 then do let m ← a[0].getInt?; let e ← a[1].getNat?; pure (.flt m e) else throw "bad f"
+    else if let .ok v := j.getObjVal? "f" then do pure (.flt (← fltOfJson v))
     else if let .ok v := j.getObjVal? "s" then do let s ← v.getStr?; pure (.str s)
     else if let .ok v := j.getObjVal? "l" then do pure (.list (← lst v))
     else if let .ok v := j.getObjVal? "t" then do pure (.tuple (← lst v))
@@ -99,7 +115,7 @@ partial def pvToJson : PV → Json
   | .none => .null
   | .bool b => .bool b
   | .int i => Json.mkObj [("i", Json.num (JsonNumber.fromInt i))]
-  | .flt m e => Json.mkObj [("f", Json.arr #[Json.num (JsonNumber.fromInt m), Json.num (JsonNumber.fromNat e)])]
+  | .flt f => Json.mkObj [("f", fltToJson f)]
   | .str s => Json.mkObj [("s", .str s)]
   | .list xs => Json.mkObj [("l", Json.arr (xs.map pvToJson).toArray)]
   | .tuple xs => Json.mkObj [("t", Json.arr (xs.map pvToJson).toArray)]
@@ -123,7 +139,7 @@ partial def jToJson : J → Json
   | .null => .null
   | .bool b => .bool b
   | .int i => Json.num (JsonNumber.fromInt i)
-  | .flt m e => Json.mkObj [("__f", Json.arr #[Json.num (JsonNumber.fromInt m), Json.num (JsonNumber.fromNat e)])]
+  | .flt f => Json.mkObj [("__f", fltToJson f)]
   | .str s => .str s
   | .arr xs => Json.arr (xs.map jToJson).toArray
   | .obj kvs => Json.arr #[.str "__obj", Json.arr (kvs.map fun (k, v) => Json.arr #[.str k, jToJson v]).toArray]
@@ -135,6 +151,7 @@ def errToJson : Err → Json
   | .unknownType t => Json.mkObj [("err", "unknownType"), ("t", .str t)]
   | .missingRef i => Json.mkObj [("err", "missingRef"), ("id", Json.num (JsonNumber.fromNat i))]
   | .cyclic => Json.mkObj [("err", "cyclic")]
+  | .valueError => Json.mkObj [("err", "valueError")]
 
 open NemoVerif.CleanUp in
 def statusOfString : String → Except String FlowStatus
@@ -198,9 +215,7 @@ def scalarOfJson (j : Json) : Except String Scalar :=
   | _ =>
     if let .ok v := j.getObjVal? "i" then do pure (.int (← v.getInt?))
     else if let .ok v := j.getObjVal? "s" then do pure (.str (← v.getStr?))
-    else if let .ok v := j.getObjVal? "f" then do
-      let a ← v.getArr?
-      if h : a.size = 2 then do pure (.flt (← a[0].getInt?) (← a[1].getNat?)) else throw "bad f"
+    else if let .ok v := j.getObjVal? "f" then do pure (.flt (← fltOfJson v))
     else throw "bad scalar"
 
 open NemoVerif.Shared in
@@ -257,6 +272,14 @@ def handle (op : String) (j : Json) : Except String Json := do
       | .error e => errToJson e
     pure (Json.mkObj [("enc", enc), ("dec", dec), ("encodable", .bool (Encodable v)), ("shape", .bool (EncShape v)),
       ("decodable", .bool (Decodable v)), ("norm", pvToJson (norm v))])
+  | "tokens" =>
+    -- the text-layer table for the non-finite floats: what the model says `json.dumps` writes / `json.loads` reads
+    let row (f : Flt) : Json := Json.mkObj [("f", fltToJson f),
+      ("token", match nonFiniteToken f with | some t => .str t | none => .null),
+      ("back", match (nonFiniteToken f).bind parseConstant with | some g => fltToJson g | none => .null),
+      ("dumps", match dumpFlt f with | .ok _ => .str "ok" | .error e => errToJson e)]
+    pure (Json.mkObj [("rows", Json.arr #[row .nan, row (.inf false), row (.inf true), row .negZero, row (.fin 1 1)]),
+      ("allow_nan", .bool NemoVerif.Generated.C11.dumpsAllowNan)])
   | "cleanup" =>
     let flows ← (← (← j.getObjVal? "flows").getArr?).toList.mapM flowOfJson
     let idx ← (← (← j.getObjVal? "idx").getArr?).toList.mapM fun e => do
